@@ -514,3 +514,65 @@ class PaddingRoundTrip(Contract):
 
 
 CONTRACTS = [IntegerFormatType, BooleanFormatType, FormatValuesLength, StorageRoundTrip, OtherValuesRoundTrip, LengthCheckAfterReopen, PaddingRoundTrip]
+
+
+class CallerValuesUntouched(Contract):
+    """Assigning values never alters the array the caller hands in -- in particular not the values of
+    another data set (`b.values = a.values`): what a data set is given is converted on the way in,
+    on a copy."""
+    target = "geoh5py/data/numeric_data.py::NumericData.format_values"
+    variant = "caller-array-untouched"
+    symbolic = False
+    has_native = True
+    props = ("C08", "C12")
+    bounded_scope = "float / integer / boolean / referenced / text data on a 4-vertex cloud; caller arrays of float64 (with and without NaN), float32, int32, int64, bool, 2-D (4,1); assigned at creation and to an existing data set; and the values of one data set assigned to another of each class (exhaustive over the listed combinations)"
+
+    def native_cases(self, tier, rng):
+        arrays = ("float64-nan", "float64", "float32-nan", "int32", "int64", "bool", "float64-2d-nan", "short-nan")
+        for cls in ("float", "integer", "boolean", "referenced"):
+            for arr in arrays:
+                for how in ("create", "assign"):
+                    yield {"cls": cls, "array": arr, "how": how}
+        for src in ("float", "integer"):
+            for dst in ("float", "integer", "referenced"):
+                yield {"cls": dst, "array": "from-" + src, "how": "assign"}
+
+    def native_check(self, case):
+        from geoh5py.objects import Points
+        from geoh5py.workspace import Workspace
+
+        def make(name):
+            return {
+                "float64-nan": np.array([1.0, np.nan, 0.0, 1.0]), "float64": np.array([1.0, 0.0, 0.0, 1.0]), "float32-nan": np.array([1.0, np.nan, 0.0, 1.0], dtype="float32"),
+                "int32": np.array([1, 0, 0, 1], dtype="int32"), "int64": np.array([1, 0, 0, 1], dtype="int64"), "bool": np.array([True, False, False, True]),
+                "float64-2d-nan": np.array([[1.0], [np.nan], [0.0], [1.0]]), "short-nan": np.array([np.nan, 1.0]),
+            }[name]
+
+        with Workspace() as ws:
+            p = Points.create(ws, vertices=np.arange(12.0).reshape(4, 3))
+            extra = {"float": {}, "integer": {"type": "integer"}, "boolean": {"type": "boolean"}, "referenced": {"type": "referenced", "value_map": {1: "A"}}}[case["cls"]]
+            other = None
+            if case["array"].startswith("from-"):
+                src_cls = case["array"][5:]
+                other = p.add_data({"src": {"values": np.array([1.0, np.nan, 0.0, 1.0]) if src_cls == "float" else np.array([1, 0, 0, 1], dtype="int32"), **({"type": "integer"} if src_cls == "integer" else {})}})
+                mine = other.values
+            else:
+                mine = make(case["array"])
+            snapshot = np.array(mine, copy=True)
+            try:
+                if case["how"] == "create":
+                    p.add_data({"d": {"values": mine, **extra}})
+                else:
+                    start = np.array([1, 0, 0, 1]) if case["cls"] != "float" else np.array([1.0, 0.0, 0.0, 1.0])
+                    d = p.add_data({"d": {"values": start.astype("int32") if case["cls"] in ("integer", "referenced") else (start.astype(bool) if case["cls"] == "boolean" else start), **extra}})
+                    d.values = mine
+            except Exception:
+                pass  # a refusal is fine; the caller's array is its own either way
+            if mine.shape != snapshot.shape or mine.dtype != snapshot.dtype or not np.array_equal(mine, snapshot, equal_nan=(mine.dtype.kind == "f")):
+                return f"assigning values to {case['cls']} data changed the caller's array from {snapshot.tolist()} to {mine.tolist()} ({case})"
+            if other is not None and not np.array_equal(np.asarray(other.values), snapshot, equal_nan=(snapshot.dtype.kind == "f")):
+                return f"assigning the values of one data set to {case['cls']} data changed the source data set to {np.asarray(other.values).tolist()} ({case})"
+        return None
+
+
+CONTRACTS = CONTRACTS + [CallerValuesUntouched]
